@@ -316,10 +316,8 @@ func fnMax(args []object.Object) object.Object {
 	}
 
 	// Numbers are compared by value.
-	a, aok := numericValue(args[0])
-	b, bok := numericValue(args[1])
-	if aok && bok {
-		if a > b {
+	if less, ok := numberLess(args[1], args[0]); ok {
+		if less {
 			return args[0]
 		}
 		return args[1]
@@ -352,6 +350,27 @@ func numericValue(obj object.Object) (float64, bool) {
 	return 0, false
 }
 
+// numberLess reports whether the number a is smaller than the number b;
+// the second result is false if either of them is not a number.
+//
+// Two integers are compared as integers: beyond 2^53 a float64 cannot
+// tell neighbouring integers apart, and min/max/between would disagree
+// with the "<" operator.
+func numberLess(a object.Object, b object.Object) (bool, bool) {
+	ai, aint := a.(*object.Integer)
+	bi, bint := b.(*object.Integer)
+	if aint && bint {
+		return ai.Value < bi.Value, true
+	}
+
+	x, xok := numericValue(a)
+	y, yok := numericValue(b)
+	if xok && yok {
+		return x < y, true
+	}
+	return false, false
+}
+
 // fnMin is the implementation of our `min` function.
 func fnMin(args []object.Object) object.Object {
 
@@ -361,10 +380,8 @@ func fnMin(args []object.Object) object.Object {
 	}
 
 	// Numbers are compared by value.
-	a, aok := numericValue(args[0])
-	b, bok := numericValue(args[1])
-	if aok && bok {
-		if b < a {
+	if less, ok := numberLess(args[1], args[0]); ok {
+		if less {
 			return args[1]
 		}
 		return args[0]
